@@ -7,3 +7,5 @@ pub mod toyf;
 mod stubs;
 #[cfg(kani)]
 mod h_vk_read;
+#[cfg(kani)]
+mod h_domain;
